@@ -57,6 +57,17 @@ class Opacity(Logger, Citable):
         else:
             wngrid_filter = np.where((self.wavenumberGrid >= wngrid.min()) & (
                 self.wavenumberGrid <= wngrid.max()))[0]
+            if not np.array_equal(self.wavenumberGrid.take(wngrid_filter),
+                                  wngrid):
+                # Keep the native points that bracket the request so that
+                # its ends are interpolated, not clamped to the last point
+                # inside
+                lo = self.wavenumberGrid.searchsorted(wngrid.min(),
+                                                      side='right') - 1
+                hi = self.wavenumberGrid.searchsorted(wngrid.max(),
+                                                      side='left')
+                wngrid_filter = np.arange(
+                    max(lo, 0), min(hi, len(self.wavenumberGrid) - 1) + 1)
 
         orig = self.compute_opacity(temperature, pressure, wngrid_filter)
 
